@@ -113,7 +113,7 @@ func checkC07(p *Prog, r *Report) {
 		r.Fail(kp("MUSTCALL", "burn.AppModule#anchor"), "anchor", "x/burn", "AppModule not found")
 		return
 	}
-	end := p.MethodOf(am, "EndBlock")
+	end := p.delegateOf(p.MethodOf(am, "EndBlock")) // AppModule.EndBlock may be a thin wrapper around an EndBlocker function
 	if end == nil || end.Blocks == nil {
 		r.Fail(kp("MUSTCALL", "burn.AppModule.EndBlock#anchor"), "anchor", "x/burn/module.go", "EndBlock not found")
 		return
@@ -142,10 +142,52 @@ func checkC07(p *Prog, r *Report) {
 		}
 		return false
 	}
-	for _, cs := range callSites(end) {
-		if cs.Callee != nil && reachesBurn(resolveBound(cs.Callee)) {
-			burnCall, _ = cs.Instr.(*ssa.Call)
+	findBurnCall := func(f *ssa.Function) *ssa.Call {
+		for _, cs := range callSites(f) {
+			if cs.Callee != nil && reachesBurn(resolveBound(cs.Callee)) {
+				if c, ok := cs.Instr.(*ssa.Call); ok {
+					return c
+				}
+			}
 		}
+		return nil
+	}
+	burnCall = findBurnCall(end)
+	// EndBlock may hand the work to an EndBlocker function: follow module calls that are executed on every path through their
+	// caller (the call dominates all returns) until the function that calls the burn is found
+	var chain []*ssa.Function
+	for depth := 0; burnCall == nil && depth < 3; depth++ {
+		var next *ssa.Function
+		co := NewOrigin(p, end)
+		for _, cs := range callSites(end) {
+			c, isCall := cs.Instr.(*ssa.Call)
+			if !isCall || cs.Callee == nil || !InModule(cs.Callee) || p.IsGenerated(cs.Callee) {
+				continue
+			}
+			always := len(returnsOf(end)) > 0
+			for _, ret := range returnsOf(end) {
+				if !co.dominates(c, ret) {
+					always = false
+				}
+			}
+			g := resolveBound(cs.Callee)
+			if always && (findBurnCall(g) != nil || depth < 2) && g.Blocks != nil {
+				if findBurnCall(g) != nil {
+					next = g
+					break
+				}
+				if next == nil {
+					next = g
+				}
+			}
+		}
+		if next == nil {
+			break
+		}
+		chain = append(chain, end)
+		end = next
+		eo = NewOrigin(p, end)
+		burnCall = findBurnCall(end)
 	}
 	if burnCall == nil {
 		r.Fail(kp("MUSTCALL", "burn.AppModule.EndBlock→burn"), "EndBlock always calls the burn", p.FnPos(end), "EndBlock does not call the function that burns coins")
@@ -177,7 +219,11 @@ func checkC07(p *Prog, r *Report) {
 		}
 		return true
 	}
-	r.Check(noPanic(end) && noPanic(bfn), kp("PANIC", "burn.EndBlock#no-explicit-panic"), "processing a block never halts because of the burn: no explicit panic in EndBlock or the burn function", p.FnPos(end),
+	chainOK := true
+	for _, f := range chain {
+		chainOK = chainOK && noPanic(f)
+	}
+	r.Check(noPanic(end) && noPanic(bfn) && chainOK, kp("PANIC", "burn.EndBlock#no-explicit-panic"), "processing a block never halts because of the burn: no explicit panic in EndBlock or the burn function", p.FnPos(end),
 		"no panic instruction", "an explicit panic sits in EndBlock or "+FuncName(bfn)+": a failed burn (e.g. locked coins) would halt the chain")
 	errUsedBad := false
 	if refs := burnCall.Referrers(); refs != nil {
